@@ -536,7 +536,7 @@ Section Pipeline.
     LegacySort.mkId (LegacySort.mkGvk (g_group (id_gvk id)) (g_version (id_gvk id)) (g_kind (id_gvk id)))
                     (id_ns id) (id_name id).
   Definition res_less (first last : list string) (a b : resource) : bool :=
-    LegacySort.legacy_less first last (rid_of a) (rid_of b).
+    LegacySort.legacy_less_g LegacyOrder.gen_ns_reversal_guarded first last (rid_of a) (rid_of b).
   Definition sort_resources (o : psort) (m : list resource) : res (list resource) :=
     match o with
     | PSortNone | PSortFifo => Ok m
